@@ -62,9 +62,11 @@ def handle_violation(prop, r, units):
             if nr["reproduced"] is True:
                 doc["verdict"] = "counter-example reproduced natively against the real code: " + nr.get("panic", "")
             elif nr["reproduced"] is False:
-                doc["verdict"] = "NOT REPRODUCED: Kani reported a failed check, but the same harness body run natively with the recorded values completed without failure"
-                write_json(path, doc)
-                return "UNDECIDED property=%s replay=%s" % (prop, path), "not-reproduced"
+                # The recorded values satisfy the harness' assumptions but the native run completes. Kani's value extraction is
+                # known to drop values (observed: all-zero values for a real `expect()` failure in gix-bitmap), so this counts as
+                # "the verifier gave no usable counter-example": the named obligation passed on the unchanged tree and fails now.
+                doc["verdict"] = "Kani check failed; its recorded values do not trigger the failure natively (value extraction incomplete): obligation reported without a failing input"
+                suffix = " no-failing-input-found"
             elif "REPLAY-ASSUMPTION-VIOLATED" in nr.get("output", ""):
                 doc["verdict"] = "NOT REPRODUCED: the values of Kani's counter-example do not satisfy the harness' own assumptions when executed natively (verifier imprecision)"
                 write_json(path, doc)
